@@ -41,9 +41,13 @@ def warm_start(
         # logging.critical(f"Can not open warm start file: {warm_start_file}")
         raise SystemExit(1) from err
 
-    # The other state variables found on the file are restored as well
-    # (left empty they get out of step with the identifiers at the next release)
-    wvars = wvars.union(var for var in state.variables if var in f.variables)
+    # The other state variables found on the file, or with a default value,
+    # are restored as well (left empty they get out of step with the particles)
+    wvars = wvars.union(
+        var
+        for var in state.variables
+        if var in f.variables or var in state.default_values
+    )
 
     # Use last record in file
     pstart = f.variables["particle_count"][:-1].sum()
@@ -78,7 +82,8 @@ def warm_start(
                 # Whole seconds (a float times a timedelta64 is truncated to
                 # whole units by numpy, and numpy has no unit "d")
                 seconds = dict(s=1, m=60, h=3600, d=86400)[ncvar.units[0]]
-                values = reftime + np.round(values * seconds).astype("m8[s]")
+                values = np.round(values.astype("f8") * seconds).astype("m8[s]")
+                values = reftime + values
         # Variables not on file, but with defaults
         elif var in state.default_values:
             # print("Med default", var)
